@@ -252,6 +252,9 @@ func (a *sideEffectActor) InboxForwarding(c context.Context, inboxIRI *url.URL, 
 		}
 		// WARNING: Not Unlocked
 		t, err := a.db.Get(c, iri)
+		if err == nil && t == nil {
+			err = ErrNotFound
+		}
 		if err != nil {
 			a.db.Unlock(c, iri)
 			return err
